@@ -47,9 +47,9 @@ def evaluate(spec):
     f0 = oracle.base_failure(o0)
     if f0:
         return {"sig": "reference container: " + f0, "detail": (o0.run.exc or "")[-300:], "nontrivial": False}
-    o1 = oracle.run_e2e(b, wd, pkts=pkts, container=cont, name="var")
+    o1 = oracle.run_e2e(b, wd, pkts=pkts, container=cont, keys=cont.get("keys"), name="var")
     f1 = oracle.base_failure(o1)
-    dims = (cont["fmt"] != "pcapng") + (cont.get("endian", "<") != "<") + (cont.get("tsresol", 6) != 6) + bool(cont.get("tsoffset")) + bool(cont.get("extra") or cont.get("extra_pre")) + (cont.get("ifaces", 1) > 1) + \
+    dims = (cont["fmt"] != "pcapng") + (cont.get("endian", "<") != "<") + (cont.get("tsresol", 6) != 6) + bool(cont.get("tsoffset")) + bool(cont.get("extra") or cont.get("extra_pre")) + (cont.get("ifaces", 1) > 1) + bool(cont.get("keys")) + \
         bool(cont.get("nano"))
     r = cont.get("tsresol", 6)
     labels = ["fmt:" + cont["fmt"] + ("-ns" if cont.get("nano") else ""), "endian:" + ("be" if cont.get("endian", "<") == ">" else "le"),
@@ -57,7 +57,8 @@ def evaluate(spec):
               "extra-blocks:%d" % len(cont.get("extra") or []), "exact-us" if exact_us else "sub-us",
               "big-block" if any(x[2] > 60000 for x in (cont.get("extra") or [])) else "small-blocks", "snaplen:%d" % cont.get("snaplen", 0),
               "opt-order:" + ("offset,resol" if cont.get("offset_first") else "resol,offset"), "blocks-before-idb:%d" % len(cont.get("extra_pre") or []),
-              "interfaces:%d%s" % (cont.get("ifaces", 1), "-late" if cont.get("late_idb") and cont.get("ifaces", 1) > 1 else "")]
+              "interfaces:%d%s" % (cont.get("ifaces", 1), "-late" if cont.get("late_idb") and cont.get("ifaces", 1) > 1 else ""),
+              "keys:" + ("file" if not cont.get("keys") else "dsb-only" if not cont["keys"].get("file") else "file+dsb")]
     nontrivial = dims >= 2 and bool(o0.pkts)
     if f1:
         return {"sig": f"variant container ({labels[0]}, {labels[2]}): " + f1, "detail": (o1.run.exc or "")[-300:], "nontrivial": nontrivial, "labels": labels}
@@ -155,6 +156,9 @@ def container(draw):
     c["extra"] = [[draw(st.integers(0, 50)), draw(st.sampled_from([4, 5, 0x00000BAD, 0x40000BAD, 0x7777, 0x0000000B])),
                    4 * draw(st.one_of(st.integers(0, 12), st.integers(0, 12), st.sampled_from([400, 16500, 17000, 45000, 90000])))]
                   for _ in range(n)]
+    # the secrets may travel inside the container (decryption secrets block, in the section's byte order) instead of the -s file
+    c["keys"] = draw(st.sampled_from([None, None, {"file": False, "dsb": [None], "dsb_pos": "first"}, {"file": False, "dsb": [None], "dsb_pos": "before_idb"},
+                                      {"file": True, "dsb": [None], "dsb_pos": "first"}]))
     # a capture on several interfaces (same time parameters): packets are spread over them; later interfaces may be described late
     c["ifaces"] = draw(st.sampled_from([1, 1, 1, 2, 3]))
     c["late_idb"] = draw(st.booleans())
@@ -189,7 +193,7 @@ def stages(tier):
 
 RULE = ("stage same-times-two-containers: the same sub-microsecond packet times in a nanosecond legacy pcap and in pcapng with if_tsresol 9 (and 2^-k) "
         "must export identically; stage containers: one TLS/QUIC scenario written as pcapng-LE-microseconds (reference) and as a drawn variant: pcapng LE/BE x if_tsresol 10^-0..10^-9 / "
-        "2^-1..2^-30 x if_tsoffset x NRB / ISB / custom / unknown blocks at drawn positions (NRB / custom / unknown also before the interface description block), or legacy pcap LE/BE (micro- and nanosecond magic) with "
+        "2^-1..2^-30 x if_tsoffset x NRB / ISB / custom / unknown blocks at drawn positions (NRB / custom / unknown also before the interface description block) x secrets in the -s file or in a decryption secrets block of the container, or legacy pcap LE/BE (micro- and nanosecond magic) with "
         "-l; packet times are exact rationals, multiples of the variant's unit; oracle: same exported packets, same timestamps (exactly when the "
         "times are integer microseconds - then also a byte-identical output file - else within 1 us).  Non-trivial: variant differs from the "
         "reference in >= 2 container dimensions and the export is non-empty")
